@@ -275,7 +275,8 @@ def recvWire (Z : Zstd) (raftSize : Nat) (wire : Bytes) : Recv :=
   else
     let n := be64 raw
     let r := Z.dec (raw.drop 8)
-    if n ≤ r.1.length then ⟨r.1.take n, false⟩
+    if 9223372036854775808 ≤ n then ⟨[], false⟩   -- int64(n) < 0: io.LimitReader with N ≤ 0 is at EOF at once
+    else if n ≤ r.1.length then ⟨r.1.take n, false⟩
     else ⟨r.1, !r.2⟩
 
 /-- raft's `installSnapshot` on top of it: copy error → Cancel; byte count ≠ `req.Size` →
